@@ -39,6 +39,8 @@ def deviation_fallback_rules(cx):
 
 
 def run(cx):
+    from rules.C03 import distance_conversion_rules
+    distance_conversion_rules(cx)
     # ---------------------------------------------------------------- TXN (crate-wide, generic)
     found = E.txn(cx, floor=4)
     for need in (f'{PC}::merge', f'{PC}::append'):
